@@ -20,7 +20,7 @@ ASSUMPTIONS = [
 
 def plan(tier):
     if tier == "quick":
-        return {"hostile": 3300, "steered": 2100, "start": 600}
+        return {"hostile": 6000, "steered": 3000, "start": 1200}
     return {"hostile": 400000, "steered": 240000, "start": 80000}
 
 
